@@ -74,6 +74,11 @@ CHECKS = {
    text="Proved: the model's per-operation minimum versions and dispatch set equal the live engine's (probed through the decorator on every run); every operation Query advertises under a version is available under it; DiscoverVersions lists exactly the supported versions, newest first; an unsupported version is refused with nothing executed; an operation below its minimum version or undispatched is refused; whatever GetAttributes/GetAttributeList report under a version is supported and not deprecated at that version by the rule table; unsupported attributes are refused in templates; Sensitive is gated to >= 1.4 and Operation Policy Name disappears in 2.0 on the real table. Tied to /repo by the complete operation x version matrix (6 supported + 4 unsupported versions), Query/DiscoverVersions under every version, GetAttributeList/GetAttributes of fully attributed objects of 7 types under every version, checked against a version table taken from the KMIP specification (monitor) and against the model. Version echo in the response header is checked by the monitor here and proved for the session model in C12; version-conditional message fields belong to C01.",
    note=TRUST,
    ref="§5 C16"),
+ "C19": dict(
+   technique="Lean 4 decision-logic theorems over a model of the client's result handling (24 operations) and chunk-independence of its length-prefixed receive loop; correspondence of the real ProxyKmipClient/KMIPProxy/KMIPProtocol over a scripted in-process transport and against a real engine",
+   text="Proved (model of the repaired client): for every ProxyKmipClient operation a Success response with payload returns exactly the payload data and a failure raises the operation-failure error with exactly (status, reason, message-or-None) (client_result_exact, failure_with/without_message_exact); for all 24 operations and every item with status != Success the client never returns data (never_success_on_failure), also on the generic send_request_payload path incl. a mismatched echoed operation; KMIPProxy result objects carry exactly the response's fields; the receive loop delivers each frame intact for every chunking (client_frames_chunk_independent, by conservation lemmas) and raises on a truncated stream; an undecodable response raises. Tied to /repo by the matrix 24 operations x 6 versions x 8 response classes x argument values over a scripted fake socket under the REAL KMIPProtocol: every emitted request is decoded by the server-side decoder and compared field by field with the arguments, responses are generated legal messages delivered under generated chunkings/truncations, plus conversations against a real in-process KmipEngine; monitors: returned data == response data, failure triple exact, never data on failure, decodability. Six genuine client defects found this way were repaired in /repo.",
+   note=TRUST + "The response decoder is a parameter of the model (C01). Assumes ASCII text; unsuccessful responses carry a Result Reason.",
+   ref="§5 C19"),
  "C20": dict(
    technique="Lean 4: decide +kernel over the table of all logger call sites regenerated from /repo (level + provenance class of every formatted argument) + log non-interference theorem; dynamic canary runs",
    text="PARTIAL (third-party exception text and result messages are covered dynamically only). Proved: on the regenerated table of all 164 logger call sites of the package (115 at INFO or above) no site at INFO+ formats a value whose provenance is key material, an object repr, a message encoding, a credential or anything the conservative classifier does not recognise; the sites that do format encodings are all DEBUG; hence two executions that fire the same sites and differ only in secret values emit identical records at INFO and above (log_noninterference). Tied to /repo by canary runs: seeded engine histories over all operations and failure paths plus end-to-end client/server round trips (incl. failing decrypts and undecodable bytes) in which every key value, secret, token, plaintext and password is a high-entropy canary; every record >= INFO on every logger (with exception text) and every result/error message is searched for each canary in raw, hex, base64 and repr form, and every fired record must come from a site of the table.",
